@@ -10,6 +10,6 @@ for d in $dirs; do
   if ! git -C /repo apply /verif/seeded/$d/patch.diff; then echo "$d: patch does not apply"; continue; fi
   bin/check $prop > seeded/$d/check_result_final.txt 2>&1; echo "check rc=$?" >> seeded/$d/check_result_final.txt
   git -C /repo checkout -- .
-  cp $(grep -o 'replay=[^ ]*' seeded/$d/check_result_final.txt | head -1 | cut -d= -f2) seeded/$d/ 2>/dev/null
+  rm -f seeded/$d/C??-*.json; cp $(grep -o 'replay=[^ ]*' seeded/$d/check_result_final.txt | head -1 | cut -d= -f2) seeded/$d/ 2>/dev/null
   echo "$d: $(grep -E 'VIOLATION|-> ' seeded/$d/check_result_final.txt | tr '\n' ' ' | cut -c1-220)"
 done
